@@ -18,6 +18,7 @@ PMInit ==
      mode |-> "-", admitted |-> FALSE, refused |-> FALSE, preabort |-> FALSE,
      nrec |-> 0, recop |-> "-", reck |-> "-",
      ninv |-> 0, lastout |-> "-", lastk |-> "-",
+     probe |-> FALSE,                                   \* this call was admitted as the half-open probe
      pend |-> "-", pendk |-> "-", pendstate |-> "-"]   \* breaker event owed to the sinks
 
 V(pm, cond, name) == IF cond THEN pm ELSE [pm EXCEPT !.viol = @ \cup {name}]
@@ -38,14 +39,15 @@ OnStart(pc, pm, ev) ==
     LET pm1 == V(pm, pm.pend = "-", "C14:breaker-transition-not-reported") IN
     [pm1 EXCEPT !.mode = ev.mode, !.admitted = FALSE, !.refused = FALSE, !.preabort = FALSE,
                 !.nrec = 0, !.recop = "-", !.reck = "-", !.ninv = 0, !.lastout = "-",
-                !.lastk = "-", !.pend = "-", !.m = RM!MInit]
+                !.lastk = "-", !.pend = "-", !.probe = FALSE, !.m = RM!MInit]
 
 OnAllow(pc, pm, ev) ==
     LET pm1 == Checks(pm, <<
           <<~pm.admitted /\ ~pm.refused,          "C07:admission-asked-twice">>,
           <<pm.ninv = 0,                           "C07:operation-invoked-before-admission">> >>)
         pm2 == BreakerOp(pc, pm1, "allow", "-", ev.at, ev.allowed, ev.ev, ev.state)
-    IN  [pm2 EXCEPT !.admitted = ev.allowed, !.refused = ~ev.allowed]
+    IN  [pm2 EXCEPT !.admitted = ev.allowed, !.refused = ~ev.allowed,
+                    !.probe = ev.allowed /\ ev.state = "half"]
 
 OnRec(pc, pm, ev) ==
     LET pm1 == Checks(pm, <<
@@ -100,6 +102,11 @@ OnDeliver(pc, pm, ev) ==
           <<pm.refused => pm.ninv = 0,             "C07:operation-invoked-by-rejected-call">>,
           <<(pm.admitted /\ pm.nrec = 1) => (<<pm.recop, pm.reck>> \in Expected(pc, pm, v)),
                                                    "C09:record-does-not-match-final-outcome">>,
+          \* the probe's own result decides: value -> closed, failure (of any class) -> open again
+          <<(pm.probe /\ Expected(pc, pm, v) = {<<"ok", "-">>}) => pm.r.phase = "closed",
+                                                   "C07:successful-probe-did-not-close">>,
+          <<(pm.probe /\ \A x \in Expected(pc, pm, v) : x[1] = "fail") => pm.r.phase = "open",
+                                                   "C07:failed-probe-did-not-reopen">>,
           <<pm.preabort => (pm.recop = "cancel" /\ ~pm.admitted /\ pm.ninv = 0),
                                                    "C13:preflight-abort-not-honoured">> >>)
         \* forward the delivery to the loop monitors of an admitted call with retry
